@@ -740,6 +740,11 @@ func (p *Parser) parseContentLength() (err error) {
 				break
 			}
 		}
+		for _, other := range cls[1:] {
+			if strings.TrimRight(other, " ") != cl {
+				return fmt.Errorf("%s %q", "bad Content-Length", cls)
+			}
+		}
 		l, err := strconv.ParseInt(cl, 10, 63)
 		if err != nil {
 			return fmt.Errorf("%s %q", "bad Content-Length", cl)
